@@ -124,7 +124,7 @@ def members_of(f):
         for a in ("state", "unit_of_measurement", "device_class", "monitor", "name", "key", "unique_id", "accessor"):
             add(f"sensor{i}.{a}", lambda s=s, a=a: getattr(s, a))
         add(f"sensor{i}.repr", lambda s=s: s.__repr__())
-        if hasattr(s, "is_on"):
+        if hasattr(type(s), "is_on"):
             add(f"sensor{i}.is_on", lambda s=s: s.is_on)
     e = f.error_sensor
     for a in ("state", "unit_of_measurement", "device_class", "name", "key"):
@@ -342,13 +342,29 @@ def error_sensor(plat, c, l):
     return scenario
 
 
+def _representative_fails(plat, c, l, why):
+    def scenario(sx):
+        try:
+            f, spa = build(plat, c, l)
+            members_of(f)
+            ok = True
+        except Exception:  # noqa
+            ok = False
+        sx.check(ok, "mem.representative-facade-builds", lambda: why)
+    return scenario
+
+
 def units(tier):
     from .common import platforms
     for p in platforms():
         yield Unit(f"construct.{p}", construct_all(p), validate=False)
     for plat, c, l in representatives(tier):
-        f, spa = build(plat, c, l)
-        n = len(members_of(f))
+        try:
+            f, spa = build(plat, c, l)
+            n = len(members_of(f))
+        except Exception as e:  # noqa
+            yield Unit(f"members.{plat}-{c}-{l}.0", _representative_fails(plat, c, l, repr(e)))
+            continue
         step = 24
         for lo in range(0, n, step):
             yield Unit(f"members.{plat}-{c}-{l}.{lo}", member_unit(plat, c, l, lo, lo + step), ratio_floats=True,
